@@ -7,7 +7,7 @@ import ast
 from .. import templates as T
 from ..callgraph import CallGraph, entry_points
 from ..cfg import CFG, ReachingDefs
-from ..flow import TellDerived
+from ..flow import BaseCount, TellDerived
 from ..model import FuncInfo, Repo
 from ..report import Report
 from ..util import AnalysisError, always_raises, call_name, chain, names_loaded, norm, parent_map, short, walk_body
@@ -128,8 +128,12 @@ def relative_seek_rule(repo: Repo, rep: Report, rid: str) -> None:
                 flow[fi.key] = (gg, ReachingDefs(gg, fi.params))
             gg, rdefs = flow[fi.key]
             cnode = next((x for x in gg.nodes if x.expr() is not None and any(y is c for y in ast.walk(x.expr()))), None)
-            if cnode is not None and TellDerived(gg, rdefs, aliases, "all").derived(cnode.id, tgt):
-                rep.ok(rid, key, f"target '{short(tgt, 40)}' is derived from {rtext}.tell() of this call on every path", fi.loc(c))
+            counts = BaseCount(gg, rdefs, aliases).counts(cnode.id, tgt) if cnode is not None else {0}
+            if cnode is not None and TellDerived(gg, rdefs, aliases, "all").derived(cnode.id, tgt) and counts == {1}:
+                rep.ok(rid, key, f"target '{short(tgt, 40)}' is one {rtext}.tell() of this call plus relative quantities, on every path", fi.loc(c))
+            elif cnode is not None and counts != {1} and 0 in counts and TellDerived(gg, rdefs, aliases, "any").derived(cnode.id, tgt):
+                rep.fail(rid, key, f"absolute seek to a *relative* quantity: in '{short(tgt, 50)}' the stream position taken by {rtext}.tell() cancels out "
+                                   f"(position bases: {sorted(counts)}): correct only for a structure that starts at stream offset 0", fi.loc(c))
             else:
                 rep.fail(rid, key, f"absolute seek: target '{short(tgt, 50)}' does not depend on a {rtext}.tell() taken in this call - parsing would "
                                    f"only be correct for a structure that starts at stream offset 0", fi.loc(c))
@@ -271,7 +275,14 @@ def funnel_rule(repo: Repo, rep: Report, rid: str) -> None:
     rep.check(len(r) == 1 and isinstance(r[0].value, ast.Call) and norm(r[0].value.func) == f"{fi.self_name}._read" and len(r[0].value.args) == 1
               and isinstance(r[0].value.args[0], ast.Call) and call_name(r[0].value.args[0]) == "BytesIO" and norm(r[0].value.args[0].args[0]) == fi.params[1],
               rid, f"{fi.key}:return", "cls._read(BytesIO(data))", f"reads returns '{short(r[0].value if r else None, 60)}'", fi.loc())
+    stm = [x for x in fi.body]
+    rep.check(len(stm) == 1 and isinstance(stm[0], ast.Return), rid, f"{fi.key}:pure-funnel", "reads does nothing but wrap the bytes in a BytesIO",
+              f"reads does more than funnel into _read ({[short(x, 40) for x in stm[:-1]]}): bytes-like input would be treated differently from the "
+              f"same bytes in a file object", fi.loc())
     fi = repo.func("types/base.py", "MetaType.read")
+    rs = [x for x in walk_body(fi.node.body) if isinstance(x, ast.Raise)]
+    rep.check(all("TypeError" in norm(x) for x in rs), rid, f"{fi.key}:raises", "only rejects objects that are neither buffers nor readable",
+              f"read raises {[short(x, 40) for x in rs]}", fi.loc())
     for x in rets(fi):
         n += 1
         v = x.value
